@@ -44,9 +44,17 @@ def call_real(inp, animals):
     edge_inds = torch.tensor(inp["edges"], dtype=torch.int64).reshape(-1, 2)
     E = len(inp["edges"])
     if api == "pipe":
+        # the DataPipe consumes a STREAM: the judged example alone (spos 0), first of two (1), or second after an
+        # example of another image size and other keypoints (2)
+        spos = inp.get("spos", 0)
         ex = {"image": torch.zeros((1, 1, H, W)), "instances": pts}
-        dp = PartAffinityFieldsGenerator([ex], sigma=sigma, output_stride=s, edge_inds=edge_inds, flatten_channels=True)
-        out = next(iter(dp))["part_affinity_fields"]
+        other = {"image": torch.zeros((1, 1, H + s * (1 + (W // s) % 2), max(s, W - s))), "instances": torch.flip(pts, dims=[-1]) * 0.5 + 1.0}
+        stream = {0: [ex], 1: [ex, other], 2: [other, ex]}[spos]
+        dp = PartAffinityFieldsGenerator(stream, sigma=sigma, output_stride=s, edge_inds=edge_inds, flatten_channels=True)
+        outs = list(dp)
+        if len(outs) != len(stream):
+            raise AssertionError("stream of %d examples gave %d outputs" % (len(stream), len(outs)))
+        out = outs[1 if spos == 2 else 0]["part_affinity_fields"]
     elif api == "fn4":
         out = generate_pafs(pts, (H, W), sigma=sigma, output_stride=s, edge_inds=edge_inds, flatten_channels=False)
         if out.ndim == 4 and out.shape[0] == E and out.shape[1] == 2:
@@ -56,8 +64,15 @@ def call_real(inp, animals):
     return out
 
 
+_PIPE_N = [0]
+
+
 def make_input(fam, api, H, W, s, sig, nodes, edges, pts):
-    return dict(fam=fam, api=api, H=H, W=W, s=s, sn=sig[0], sd=sig[1], nodes=nodes, edges=edges, pts=pts)
+    spos = 0
+    if api == "pipe":
+        _PIPE_N[0] += 1
+        spos = _PIPE_N[0] % 3
+    return dict(fam=fam, api=api, H=H, W=W, s=s, sn=sig[0], sd=sig[1], nodes=nodes, edges=edges, pts=pts, spos=spos)
 
 
 def observe(inputs, rng, with_singles=True):
@@ -284,7 +299,7 @@ def count_clauses(res, cases, stats):
             stats["nontrivial"].add(hash(json.dumps([c["H"], c["W"], c["s"], c["edges"], c["pts"]])))
 
 
-CASE_FIELDS = ("fam", "api", "H", "W", "s", "sn", "sd", "nodes", "edges")
+CASE_FIELDS = ("fam", "api", "H", "W", "s", "sn", "sd", "nodes", "edges", "spos")
 
 
 def judge_round(res, name, inputs, note, stats, rng):
